@@ -2291,11 +2291,15 @@ impl TieredEngine {
 
                     success_count += 1;
                 }
-                (None, None) if mirror_coherence.version != 0 => {
+                (None, None) | (Some(_), None) | (None, Some(_))
+                    if mirror_coherence.version != 0 =>
+                {
                     // The entry mirrors canonical version N of this document (live canonical
                     // versions start at 1) and no canonical record is left: the document was
                     // deleted after it was mirrored, possibly while this drain was holding the
-                    // entry. Re-inserting it would undo an acknowledged delete.
+                    // entry. Re-inserting it would undo an acknowledged delete. The two canonical
+                    // reads above are separate: a delete (or insert) that completes between them
+                    // shows up as a partial state, and the cold tier stays authoritative there too.
                     debug!(
                         doc_id,
                         drain_kind,
